@@ -4,7 +4,7 @@
 From Coq Require Import List String Ascii NArith Lia Bool Arith.
 Import ListNotations.
 Require Import P.Generated.Enums P.Spec.Values P.Generated.Tables P.Meta.Scan P.Model.Base P.Model.Token P.Model.Reader P.Model.Trace
-  P.Model.Writer P.Model.Pool P.Model.Walk P.Model.Builder P.Model.Atom P.Spec.Events P.Spec.Pool P.Spec.Valence P.Spec.Normal P.Spec.Known P.Spec.Graph P.Spec.Denote P.Spec.Roundtrip P.Spec.Grammar P.Checks.C18_defs P.Checks.Token_defs.
+  P.Model.Writer P.Model.Pool P.Model.Walk P.Model.Builder P.Model.Atom P.Spec.Events P.Spec.Pool P.Spec.Valence P.Spec.Normal P.Spec.Known P.Spec.Graph P.Spec.Denote P.Spec.Roundtrip P.Spec.Grammar P.Proofs.ReaderDepth P.Checks.C18_defs P.Checks.Token_defs.
 Local Open Scope string_scope.
 
 Fixpoint show_N_aux (fuel : nat) (n : N) (acc : string) : string :=
@@ -22,6 +22,8 @@ Definition bres_ok (m : bres) (i : bres') := match m, i with BOk g, B'Ok g' => l
 Definition werr_eqb (a b : werr) := match a, b with HalfBond x y, HalfBond x' y' | DuplicateBond x y, DuplicateBond x' y' | UnknownTarget x y, UnknownTarget x' y'
   | IncompatibleBond x y, IncompatibleBond x' y' => Nat.eqb x x' && Nat.eqb y y' | Loop x, Loop x' => Nat.eqb x x' | _, _ => false end.
 Definition wres_eqb (a b : wres) := match a, b with WOk, WOk => true | WErr e, WErr e' => werr_eqb e e' | WPanic x, WPanic y => Nat.eqb x y | _, _ => false end.
+Definition tok_kind_eqb (a b : tok kind) := match a, b with TOk k n, TOk k' n' => kind_eqb k k' && Nat.eqb n n' | TNo, TNo | TErrEol, TErrEol | TPanic, TPanic => true
+  | TErrChar i, TErrChar j => Nat.eqb i j | _, _ => false end.
 Definition otext_eqb (a b : option (list N)) := opt_eqb (list_eqb N.eqb) a b.
 Definition orange_eqb (a b : option (nat * nat)) := opt_eqb (fun x y => Nat.eqb (fst x) (fst y) && Nat.eqb (snd x) (snd y)) a b.
 
@@ -40,6 +42,51 @@ Definition built_is_simple (b : bres') : bool := match b with B'Ok g => wf g | _
 (* ------------------------------------------------------------ reader *)
 Record reader_case := RC { rc_in : list N; rc_verdict : verdict; rc_events : list ev; rc_atoms : list (option (nat * nat));
   rc_rnums : list (option (nat * nat)); rc_bonds : list (nat * nat * option nat); rc_build : bres'; rc_text : option (list N); rc_others : list verdict (* same input into Builder+Trace, Writer, Builder *) }.
+(* C15 oracle: the trace answers of the implementation against the specification -- ranges slice the input to the
+   tokens; bond cursors are recomputed from the implementation's own ranges by pairing ring tokens *)
+Definition is_explicit_b (b : bond_kind) : bool := negb (bondk_eqb b BK_Elided).
+Definition ostart (o : option (nat * nat)) : nat := match o with Some (a, _) => a | None => 0 end.
+(* expected bond map: latest entry first; (stack of atom ids, atoms seen, ring tokens seen, open table) *)
+Fixpoint expected_bonds (h : list ev) (atoms rnums : list (option (nat * nat))) (stack : list nat) (na nr : nat) (open : list (N * (nat * nat)))
+    (acc : list (nat * nat * nat)) : list (nat * nat * nat) :=
+  match h with
+  | [] => acc
+  | ERoot _ :: t => expected_bonds t atoms rnums (na :: stack) (S na) nr open acc
+  | EExtend b _ :: t =>
+      match stack with
+      | [] => acc
+      | sid :: _ => let c := ostart (nth na atoms None) - (if is_explicit_b b then 1 else 0) in
+                    expected_bonds t atoms rnums (na :: stack) (S na) nr open ((na, sid, c) :: (sid, na, c) :: acc)
+      end
+  | EJoin b r :: t =>
+      match stack with
+      | [] => acc
+      | sid :: _ => let c := ostart (nth nr rnums None) - (if is_explicit_b b then 1 else 0) in
+          match find (fun p => N.eqb (fst p) r) open with
+          | Some (_, (osid, oc)) => expected_bonds t atoms rnums stack na (S nr) (filter (fun p => negb (N.eqb (fst p) r)) open) ((osid, sid, oc) :: (sid, osid, c) :: acc)
+          | None => expected_bonds t atoms rnums stack na (S nr) ((r, (sid, c)) :: open) acc
+          end
+      end
+  | EPop d :: t => expected_bonds t atoms rnums (skipn d stack) na nr open acc
+  end.
+Definition atom_kinds (h : list ev) : list kind := flat_map (fun e => match e with ERoot k | EExtend _ k => [k] | _ => [] end) h.
+Definition join_numbers' (h : list ev) : list N := flat_map (fun e => match e with EJoin _ r => [r] | _ => [] end) h.
+Definition trace_spec_ok (c : reader_case) : bool :=
+  match rc_verdict c, rc_build c with
+  | VOk, B'Ok _ =>
+      let s := rc_in c in let ks := atom_kinds (rc_events c) in let rs := join_numbers' (rc_events c) in
+      (* one range per atom, then None; each slices to its token *)
+      Nat.eqb (List.length (rc_atoms c)) (S (List.length ks)) && Nat.eqb (List.length (rc_rnums c)) (S (List.length rs)) &&
+      forallb (fun p => match snd p with Some (a, b) => tok_kind_eqb (read_atom (skipn a s)) (TOk (fst p) (b - a)) && Nat.leb a b | None => false end) (combine ks (rc_atoms c)) &&
+      match nth (List.length ks) (rc_atoms c) (Some (0, 0)) with None => true | Some _ => false end &&
+      forallb (fun p => match snd p with Some (a, b) => match read_rnum (skipn a s) with TOk r n => N.eqb r (fst p) && Nat.eqb n (b - a) | _ => false end | None => false end) (combine rs (rc_rnums c)) &&
+      match nth (List.length rs) (rc_rnums c) (Some (0, 0)) with None => true | Some _ => false end &&
+      (* bond cursors *)
+      let eb := expected_bonds (rc_events c) (rc_atoms c) (rc_rnums c) [] 0 0 [] [] in
+      forallb (fun q => let '(i, j, o) := q in
+                 opt_eqb Nat.eqb o (option_map snd (find (fun e => Nat.eqb (fst (fst e)) i && Nat.eqb (snd (fst e)) j) eb))) (rc_bonds c)
+  | _, _ => true
+  end.
 Definition reader_model_ok (c : reader_case) : bool :=
   let r := read (rc_in c) in
   let evs := map ev_of (r_events r) in
@@ -82,6 +129,8 @@ Definition run_reader_suite (cs : list reader_case) :=
         | VChar i => viable_spec (firstn i (rc_in c)) && negb (viable_spec (firstn (S i) (rc_in c))) && Nat.ltb i (List.length (rc_in c))
         | VEol => viable_spec (rc_in c) && negb (accepts_spec (rc_in c))
         | _ => true end) (fun c => show (rc_in c)) cs);
+   ("RESULT", "C15.trace_maps_to_exact_cursors", bad trace_spec_ok (fun c => show (rc_in c)) cs);
+   ("RESULT", "C19.model_depth_within_nesting", bad (fun c => Nat.leb (r_depth (read (rc_in c))) (1 + P.Proofs.ReaderDepth.nesting (rc_in c))) (fun c => show (rc_in c)) cs);
    ("RESULT", "C02.built_graph_is_denotation", bad (fun c => match rc_verdict c with VOk => denote_agrees (rc_events c) (rc_build c) | _ => true end) (fun c => show (rc_in c)) cs);
    ("RESULT", "C10.built_graph_is_simple", bad (fun c => built_is_simple (rc_build c)) (fun c => show (rc_in c)) cs)].
 
@@ -190,8 +239,6 @@ Definition run_atom_suite (cs : list atom_case) :=
    ("RESULT", "corr.atom_model", bad atom_model_ok (fun c => show (pp_kind (akind (ac_a c))) ++ "/" ++ show_nat (Nat.min 12 (List.length (bonds (ac_a c))))) cs)].
 Record kind_case := KC { kc_k : kind; kc_text : list N; kc_probe : list N; kc_read : tok kind; kc_inv : kres; kc_sum : N; kc_db : option kind;
   kc_targets : list N; kc_arom : bool }.
-Definition tok_kind_eqb (a b : tok kind) := match a, b with TOk k n, TOk k' n' => kind_eqb k k' && Nat.eqb n n' | TNo, TNo | TErrEol, TErrEol | TPanic, TPanic => true
-  | TErrChar i, TErrChar j => Nat.eqb i j | _, _ => false end.
 Definition kres_eqb (a b : kres) := match a, b with KOk k, KOk k' => kind_eqb k k' | KPanic, KPanic => true | _, _ => false end.
 Definition kind_model_ok (c : kind_case) : bool :=
   list_eqb N.eqb (pp_kind (kc_k c)) (kc_text c) && tok_kind_eqb (read_atom (kc_probe c)) (kc_read c) && kres_eqb (invert (kc_k c)) (kc_inv c) &&
